@@ -81,8 +81,8 @@ CHECKS.update({
 })
 CHECKS.update({
  "C04": dict(
-   text="Theorems (all under the guard that only the ROOT holds a single leaf without oid): C04_footprint_set_partial / C04_footprint_del_partial (every stored object whose record would differ after an insert / delete was marked changed by that operation -- each modification is announced), C04_commit_partial (a commit that dumps, in ANY order, every registered object and every object that received an oid brings every record up to date), C04_reader_partial (a fresh reader of up-to-date records sees precisely the writer's contents, by descent and along the leaf chain, in a state satisfying the stored invariant), and C04_refuted (without the guard the statement is false: witness tree and dump order, the reader gets two copies of a leaf -- finding F16). The model (events -> registration, getstate with the embedding rule, order-dependent commit, reader) is compared with C and Python through a data manager: registered and read-current sets after every call, the dump sequence, the reader's view after every commit (the model predicts the F16 corruption exactly when it happens), aborts; the hypotheses of the theorems are evaluated as boolean checks on every real step / commit.",
-   note="Partial: guard no_embed_below (F16 is a recorded finding of both implementations); harness/minijar.py stands in for ZODB's connection (three dump orders); the glue from per-operation footprint to 'synced after every history' is checked on runs, not proved; abort is modelled as restoring the last committed tree. Print Assumptions: closed.",
+   text="Theorems (all under the guard that only the ROOT holds a single leaf without oid): C04_footprint_set_partial / C04_footprint_del_partial (every stored object whose record would differ after an insert / delete was marked changed by that operation -- each modification is announced), C04_commit_partial (a commit that dumps, in ANY order, every registered object and every object that received an oid brings every record up to date), C04_reader_partial (a fresh reader of up-to-date records sees precisely the writer's contents, by descent and along the leaf chain, in a state satisfying the stored invariant), C04_run_partial (the run-level statement: for EVERY history of public calls and commits, commits anywhere and in any complete dump order, during which the guard holds, a fresh reader after a final commit sees exactly the writer's contents in a sound tree; both implementations' switches, all node sizes), and C04_refuted (without the guard the statement is false: witness tree and dump order, the reader gets two copies of a leaf -- finding F16). The model (events -> registration, getstate with the embedding rule, order-dependent commit, reader) is compared with C and Python through a data manager: registered and read-current sets after every call, the dump sequence, the reader's view after every commit (the model predicts the F16 corruption exactly when it happens), aborts; the hypotheses of the theorems are evaluated as boolean checks on every real step / commit.",
+   note="Partial: guard no_embed_below (F16 is a recorded finding of both implementations); harness/minijar.py stands in for ZODB's connection (three dump orders); the run-level theorem covers all calls except the bulk forms (update, |=, &=, -=, ^=: folds of single inserts/deletes in the model, whose intermediate states would need the guard too); abort is modelled as restoring the last committed tree. Print Assumptions: closed.",
    technique="Coq proofs about a hand-written persistence model (write footprint, order-independent commit under a guard, reader reconstruction, refutation witness) + differential correspondence through a mini data manager",
    ref="DESIGN.md section 6 C04"),
  "C16": dict(
@@ -103,13 +103,13 @@ CHECKS.update({
    technique="Coq proof that unchanged stored nodes stay equal to their records (eviction = identity between operations) + eviction-schedule exploration incl. sweeps inside comparisons and pin checks after failing calls",
    ref="DESIGN.md section 6 C05"),
  "C08": dict(
-   text="Theorems C08_writes_declare_reads_set / _del (every insert and every delete -- also one that ends in KeyError -- declares EVERY interior node it descended through as a read dependency, for all trees and keys), C08_reads_declare_nothing (lookups, len, bool, keys, items, isdisjoint emit no event and change nothing); together with the write footprint of C04 and the exact leaf merge of C07 these are the facts optimistic concurrency control relies on. The OUTCOME clause (the second commit conflicts, or the stored tree is sound and its contents are the serial result or the merge of two disjoint change sets) is decided by the harness: random committed base trees of all families and both implementations at node sizes (2,2)..defaults, two transactions of 1..3 operations (insert / delete / replace / clear) on separate connections, both commit orders with conflict resolution, a third connection reads the result and checks _check(), the independent walker and the contents; the read-dependency declarations of every write and of pure reads are checked against the connection.",
-   note="Partial: the protocol-level outcome statement is checked on explored schedules, not proved (the composition footprint + merge + read-current => serializable-or-merged is not a theorem here). harness/minijar.py implements ZODB's commit protocol (read-current check, per-object resolution with placeholders for references). Base trees already unsound after their own commit (finding F16 of C04) are skipped. Print Assumptions: closed.",
+   text="Theorems C08_writes_declare_reads_set / _del (every insert and every delete -- also one that ends in KeyError -- declares EVERY interior node it descended through as a read dependency, for all trees and keys), C08_reads_declare_nothing (lookups, len, bool, keys, items, isdisjoint emit no event and change nothing), C08_leaf_outcome / C08_leaf_outcome_serial (for a container that is one leaf -- Bucket, Set, embedded tree -- the second commit conflicts or stores the original with both disjoint change sets applied, nothing else; with one side unchanged it is the other side's state); together with the write footprint of C04 and the exact leaf merge of C07 these are the facts optimistic concurrency control relies on. The OUTCOME clause (the second commit conflicts, or the stored tree is sound and its contents are the serial result or the merge of two disjoint change sets) is decided by the harness: random committed base trees of all families and both implementations at node sizes (2,2)..defaults, two transactions of 1..3 operations (insert / delete / replace / clear) on separate connections, both commit orders with conflict resolution, a third connection reads the result and checks _check(), the independent walker and the contents; the read-dependency declarations of every write and of pure reads are checked against the connection.",
+   note="Partial: for multi-node trees the protocol-level outcome statement is checked on explored schedules, not proved (the composition footprint + merge + read-current => serializable-or-merged is not a theorem here). harness/minijar.py implements ZODB's commit protocol (read-current check, per-object resolution with placeholders for references). Base trees already unsound after their own commit (finding F16 of C04) are skipped. Print Assumptions: closed.",
    technique="Coq proofs of the read-dependency footprint of writes and of the silence of reads + two-connection commit-schedule exploration with conflict resolution",
    ref="DESIGN.md section 6 C08"),
  "C09": dict(
    text="Both implementations are tied to ONE Coq model whose only differences are explicit switches (isC / vsame / iand_rebuilds). Theorems: C09_results_equal (for every history, every node-size setting, the two settings of the switches give the same results and the same final contents), C09_shape_equal (for every history without the set operator &=, the resulting trees are IDENTICAL -- separators, leaf boundaries, node identities -- hence equal serialized state), C09_conversions_agree (the C and the Python integer conversion accept the same values, except objects that merely define __index__). The harness runs one history on the C and on the Python class of all 22 families x 4 kinds side by side, interleaving calls whose key or value lies OUTSIDE the family's domain (out-of-range ints, wrong types, None, floats, bools, default-comparison objects, unhashable values): equal result, same exception class, equal contents, equal shape, byte-identical pickle after every call.",
-   note="Partial: exception classes and out-of-domain arguments are outside the Coq model (differential only). Recorded divergences: F17 (&= leaves different shapes), F27 (fs pickles differ by a memo reference), F28 (exception classes on an empty container), F29 (setdefault with an unusable value on an existing key); F30 fixed. byValue, error texts and update()'s return value are excluded by the property. Print Assumptions: closed.",
+   note="Partial: exception classes and out-of-domain arguments are outside the Coq model (differential only). Recorded divergences: F17 (&= leaves different shapes), F27 (fs pickles differ by a memo reference), F28 (exception classes on an empty container), F29 (setdefault with an unusable value on an existing key), F31 (unorderable key: Bucket.get / discard); F30, F32 fixed. byValue, error texts and update()'s return value are excluded by the property. Print Assumptions: closed.",
    technique="Coq proof that the model's C/Python switches do not influence results, contents or shape + paired differential execution incl. out-of-domain arguments",
    ref="DESIGN.md section 6 C09"),
 })
